@@ -27,6 +27,8 @@ def r1(ctx):
             seen.add(key)
             ctx.violation(key, ctx.where(CMP), msg)
 
+    clock = [0]
+
     def call(node, recv, args, it, env):
         callee = str(node.get("callee", ""))
         m = node.get("m")
@@ -42,10 +44,15 @@ def r1(ctx):
         if "NaiveDate" in callee or m in ("and_hms_opt", "and_hms", "and_time"):
             return (interp.some(0) if (m or callee).endswith("_opt") else 0,)
         if callee.endswith("Local::now") or callee.endswith("Utc::now"):
-            return (0,)
-        if m in ("naive_local", "naive_utc") and recv == 0:
-            return (0,)
-        if m in ("with_year", "with_month", "with_day", "with_hour", "with_minute", "with_second", "with_nanosecond") and recv == 0:
+            # every reading of the clock is a later instant: an "epoch" built from now() with year .. second overwritten keeps
+            # the sub-second part of that reading, so two of them are different instants unless the fraction is cleared too
+            clock[0] += 1
+            return (clock[0] * 1e-9,)
+        if m in ("naive_local", "naive_utc") and isinstance(recv, float):
+            return (recv,)
+        if m in ("with_year", "with_month", "with_day", "with_hour", "with_minute", "with_second") and isinstance(recv, (int, float)) and not isinstance(recv, bool) and recv < 1:
+            return (interp.some(recv),)
+        if m == "with_nanosecond" and isinstance(recv, (int, float)) and not isinstance(recv, bool) and recv < 1:
             return (interp.some(0),)
         return None
 
@@ -64,7 +71,9 @@ def r1(ctx):
         raise interp.Undecided("not an Ordering: %r" % (r,))
     sgn = lambda x: (x > 0) - (x < 0)
     domains = {"text": (["10", "2", "b"], lambda v: v), "numeric": (["10", "2", "x"], lambda v: int(v) if v.isdigit() else 0),
-               "date": (["d10", "d2", "d7"], lambda v: int(v[1:])),
+               # (`x`: a key of the date kind that is not a date - an empty exif_datetime, say - sorts as the epoch, and equal to
+               # another such key: the ordered buffer looks its keys up by this comparison)
+               "date": (["d10", "d2", "d7", "x"], lambda v: int(v[1:]) if v[1:].isdigit() else 0),
                # an expression with a numeric and a date part (`size + modified`) is ordered by value, as the numeric kind
                "numeric+date": (["10", "2", "x"], lambda v: int(v) if v.isdigit() else 0)}
     try:
